@@ -99,11 +99,15 @@ Definition passive (c : cmd) : bool :=
   | CDo (SIn (HalfClose _ _)) | CDo (SIn (Abort _ _)) | CDo (SFlush _) | CDo (SGet _) | CExpect _ => true
   | _ => false
   end.
-(* static part: sc = body ++ tail where tail is passive, contains flush-all(override) and closes every
-   stream that the script opens; every id is in the window 1..n of the suite counter *)
+Definition opens (k : N) (c : cmd) : bool := match c with CDo (SIn (Connect _ c')) => c' =? k | _ => false end.
+(* is stream k open after the script (it was not open before)? *)
+Definition open_after (k : N) (sc : script) : bool :=
+  fold_left (fun o c => if closes k c then false else if opens k c then true else o) sc false.
+(* static part: every stream that the script opens is closed again (after its last opening); sc = body ++ tail
+   where tail only closes streams, flushes, reads and checks, and contains flush-all(override) *)
 Definition ends_clean (sc : script) : Prop :=
   exists body tail, sc = body ++ tail /\ forallb passive tail = true /\ existsb is_flush_all tail = true
-                    /\ forall k, In k (connected sc) -> existsb (closes k) tail = true.
+                    /\ forall k, In k (connected sc) -> open_after k sc = false.
 
 (* a checker for ends_clean: the longest passive suffix of the script is taken as its clean-up part *)
 Fixpoint psplit (sc : script) : script * script :=
@@ -117,7 +121,7 @@ Fixpoint psplit (sc : script) : script * script :=
   end.
 Definition ends_clean_b (sc : script) : bool :=
   let t := snd (psplit sc) in
-  existsb is_flush_all t && forallb (fun k => existsb (closes k) t) (connected sc).
+  existsb is_flush_all t && forallb (fun k => negb (open_after k sc)) (connected sc).
 Definition expects_of (sc : script) : list (log -> bool) :=
   flat_map (fun c => match c with CExpect f => [f] | _ => [] end) sc.
 
@@ -197,7 +201,14 @@ Inductive fault :=
 | F_stale_get                (* Get omits one entry *)
 | F_ignore_flush             (* Flush answers OK and removes nothing *)
 | F_misreport_elect          (* the election id in responses is off by one *)
-| F_accept_repeated_params.  (* a second SessionParameters message is acknowledged instead of ending the RPC *)
+| F_accept_repeated_params   (* a second SessionParameters message is acknowledged instead of ending the RPC *)
+(* the same requirements broken in a second, per-recipient / per-kind way *)
+| F_echo_own_elect           (* the election response carries the announcer's own id *)
+| F_misreport_nonprimary     (* the election id is off by one only in responses to a session that is not the primary *)
+| F_omit_fib_deletes         (* FIB_PROGRAMMED is never sent for DELETE operations *)
+| F_stale_get_ipv4           (* Get omits one entry of the IPv4 table *)
+| F_ignore_flush_named       (* Flush of a named instance answers OK and removes nothing *)
+| F_tie_keeps_old_primary.   (* a session whose announced id equals the current id is served as primary again *)
 
 Definition map_out (f : out -> out) (o : sout) : sout := match o with OMod x => OMod (f x) | o' => o' end.
 Definition map_resps (f : resp -> resp) (o : out) : out := {| o_resps := map f (o_resps o); o_end := o_end o |}.
@@ -229,6 +240,21 @@ Definition fail_ids (ids : list N) (r : resp) : resp :=
                                  then match snd x with FIB_PROGRAMMED => [] | _ => [(fst x, FAILED)] end
                                  else [x]) rs)
   | r' => r'
+  end.
+
+Definition echo_id (id : u128) (r : resp) : resp := match r with RElect _ => RElect (Some id) | r' => r' end.
+Definition delete_ids (ops : list hop) : list N :=
+  flat_map (fun o => match op_kind o with DELETE => [op_id o] | _ => [] end) ops.
+Definition drop_fib_of (ids : list N) (r : resp) : resp :=
+  match r with
+  | RResults rs => RResults (filter (fun x => negb (memN (fst x) ids && negb (not_fib x))) rs)
+  | r' => r'
+  end.
+Fixpoint drop_first_ipv4 (l : list gentry) : list gentry :=
+  match l with
+  | [] => []
+  | GTop _ T4 _ _ :: tl => tl
+  | e :: tl => e :: drop_first_ipv4 tl
   end.
 
 Definition fstep (f : fault) : stepfn := fun s i =>
@@ -268,6 +294,56 @@ Definition fstep (f : fault) : stepfn := fun s i =>
   | F_ignore_flush =>
     match i with
     | SFlush _ => (s, OFlush F_OK)
+    | _ => ref_step s i
+    end
+  | F_echo_own_elect =>
+    match i with
+    | SIn (Msg _ _ (MElect _ id)) => let '(s', o) := ref_step s i in (s', map_out (map_resps (echo_id id)) o)
+    | _ => ref_step s i
+    end
+  | F_misreport_nonprimary =>
+    match i with
+    | SIn (Msg _ c (MElect _ _)) =>
+      let '(s', o) := ref_step s i in
+      match master s' with
+      | Some m => if m =? c then (s', o) else (s', map_out (map_resps off_by_one) o)
+      | None => (s', map_out (map_resps off_by_one) o)
+      end
+    | _ => ref_step s i
+    end
+  | F_omit_fib_deletes =>
+    match i with
+    | SIn (Msg _ _ (MOps _ ops)) => let '(s', o) := ref_step s i in (s', map_out (map_resps (drop_fib_of (delete_ids ops))) o)
+    | _ => ref_step s i
+    end
+  | F_stale_get_ipv4 =>
+    match i with
+    | SGet q => (s, OGet (option_map drop_first_ipv4 (do_get s q)))
+    | _ => ref_step s i
+    end
+  | F_ignore_flush_named =>
+    match i with
+    | SFlush q => match f_ni q with NName _ => (s, OFlush F_OK) | _ => ref_step s i end
+    | _ => ref_step s i
+    end
+  | F_tie_keeps_old_primary =>
+    match i with
+    | SIn (Msg _ c (MOps _ _)) =>
+      match cur s, sget ribt c s with
+      | Some cu, Some x =>
+        match s_last x with
+        | Some la =>
+          if u128_eqb la cu then
+            let '(s1, o1) := ref_step s (SIn (Msg hentry c (MElect hentry cu))) in
+            match o1 with
+            | OMod o => match o_end o with Some _ => (s1, o1) | None => ref_step s1 i end
+            | _ => (s1, o1)
+            end
+          else ref_step s i
+        | None => ref_step s i
+        end
+      | _, _ => ref_step s i
+      end
     | _ => ref_step s i
     end
   | F_accept_repeated_params =>
@@ -326,9 +402,9 @@ Definition add_ipv4 (ack : N) (st : astatus) : test :=
 Definition T_add_ipv4_rib := add_ipv4 0 RIB_PROGRAMMED.
 Definition T_add_ipv4_fib := add_ipv4 1 FIB_PROGRAMMED.
 (* IdempotentDelete - RIB ACK: base topology (4 operations in one request), then each entry deleted twice *)
-Definition T_idempotent_delete : test :=
+Definition idempotent_delete (ack : N) (st : astatus) : test :=
   {| t_span := 1;
-     t_script := session 1 0 id1
+     t_script := session 1 ack id1
                  ++ [CExpect (no_errors 1);
                      sendops 1 [hop1 1 ADD id1 (e_nh 1)]; sendops 1 [hop1 2 ADD id1 (e_nh 2)];
                      sendops 1 [hop1 3 ADD id1 (e_grp 1 [1; 2])]; sendops 1 [hop1 4 ADD id1 (e_v4 1000 1)];
@@ -336,8 +412,10 @@ Definition T_idempotent_delete : test :=
                      sendops 1 [hop1 7 DELETE id1 (e_grp 1 [])]; sendops 1 [hop1 8 DELETE id1 (e_grp 1 [])];
                      sendops 1 [hop1 9 DELETE id1 (e_nh 1)]; sendops 1 [hop1 10 DELETE id1 (e_nh 1)];
                      CExpect (no_errors 1); close 1]
-                 ++ map (fun i => CExpect (has_res 1 i RIB_PROGRAMMED)) [1; 2; 3; 4; 5; 6; 7; 8; 9; 10]
+                 ++ map (fun i => CExpect (has_res 1 i st)) [1; 2; 3; 4; 5; 6; 7; 8; 9; 10]
                  ++ cleanup |}.
+Definition T_idempotent_delete := idempotent_delete 0 RIB_PROGRAMMED.
+Definition T_idempotent_delete_fib := idempotent_delete 1 FIB_PROGRAMMED.
 (* TestSameElectionIDFromTwoClients: the later announcer of the same id is primary; A's operation fails *)
 Definition T_same_id_two_clients : test :=
   {| t_span := 1;
@@ -377,6 +455,54 @@ Definition T_flush_master : test :=
                      doget (NName 1) A_ALL; CExpect (last_get_count 0)]
                  ++ cleanup |}.
 
+(* GetIPv4 - RIB ACK *)
+Definition T_get_ipv4 : test :=
+  {| t_span := 1;
+     t_script := session 1 0 id1
+                 ++ [CExpect (no_errors 1);
+                     sendops 1 [hop1 1 ADD id1 (e_nh 1)]; sendops 1 [hop1 2 ADD id1 (e_grp 1 [1])];
+                     sendops 1 [hop1 3 ADD id1 (e_v4 1042 1)];
+                     CExpect (no_errors 1); close 1;
+                     CExpect (has_res 1 1 RIB_PROGRAMMED); CExpect (has_res 1 2 RIB_PROGRAMMED); CExpect (has_res 1 3 RIB_PROGRAMMED);
+                     doget (NName 1) A_IPV4; CExpect (last_get_has (1, 1, 1042))]
+                 ++ cleanup |}.
+(* FlushOfSpecificNI - RIB ACK: a chain in the default instance (first stream, first id) and one in the VRF
+   (second stream, second id); Flush of the default instance by name under the current id *)
+Definition hopn (n id : N) (k : okind) (el : u128) (e : entry) : hop := mk_hop id n k (Some el) e [] [].
+Definition T_flush_specific : test :=
+  {| t_span := 2;
+     t_script := session 1 0 id1
+                 ++ [CExpect (no_errors 1);
+                     sendops 1 [hop1 1 ADD id1 (e_nh 1)]; sendops 1 [hop1 2 ADD id1 (e_grp 1 [1])];
+                     sendops 1 [hop1 3 ADD id1 (e_v4 1042 1)];
+                     CExpect (no_errors 1); close 1;
+                     CExpect (has_res 1 1 RIB_PROGRAMMED); CExpect (has_res 1 2 RIB_PROGRAMMED); CExpect (has_res 1 3 RIB_PROGRAMMED)]
+                 ++ session 2 0 id2
+                 ++ [CExpect (no_errors 2);
+                     sendops 2 [hopn 2 4 ADD id2 (e_nh 1)]; sendops 2 [hopn 2 5 ADD id2 (e_grp 1 [1])];
+                     sendops 2 [hopn 2 6 ADD id2 (e_v4 1042 1)];
+                     CExpect (no_errors 2); close 2;
+                     CExpect (has_res 2 4 RIB_PROGRAMMED); CExpect (has_res 2 5 RIB_PROGRAMMED); CExpect (has_res 2 6 RIB_PROGRAMMED);
+                     doflush (FId id2) (NName 1); CExpect last_flush_ok;
+                     doget (NName 1) A_ALL; CExpect (last_get_count 0);
+                     doget (NName 2) A_ALL; CExpect (last_get_count 3)]
+                 ++ cleanup |}.
+(* TestLowerElectionID: A announces the higher id, then B a lower one; both are told A's id *)
+Definition T_lower_id : test :=
+  {| t_span := 2;
+     t_script := session 1 1 id2 ++ [CExpect (no_errors 1)] ++ session 2 1 id1
+                 ++ [CExpect (no_errors 2); CExpect (no_errors 1);
+                     CExpect (reported_announced 1 1 0); CExpect (reported_announced 2 1 0);
+                     close 2; close 1]
+                 ++ cleanup |}.
+(* TestDecElectionID: the second check looks at all results received so far, as chk.HasResult does *)
+Definition T_dec_id : test :=
+  {| t_span := 2;
+     t_script := session 1 0 id2
+                 ++ [CExpect (no_errors 1); CExpect (reported_announced 1 1 0);
+                     elect 1 id1; CExpect (no_errors 1); CExpect (reported_announced 1 1 0); close 1]
+                 ++ cleanup |}.
+
 (* not a compliance test: a script that installs a next-hop and a group and never flushes (it breaks the contract) *)
 Definition leaky : test :=
   {| t_span := 1;
@@ -388,24 +514,30 @@ Definition test_of (n : N) : option test :=
   | 1 => Some T_connect_elect | 2 => Some T_repeated_params | 3 => Some T_add_ipv4_rib | 4 => Some T_add_ipv4_fib
   | 5 => Some T_idempotent_delete | 6 => Some T_same_id_two_clients | 7 => Some T_unannounced_id
   | 8 => Some T_get_nh | 9 => Some T_flush_master
+  | 10 => Some T_idempotent_delete_fib | 11 => Some T_get_ipv4 | 12 => Some T_flush_specific
+  | 13 => Some T_lower_id | 14 => Some T_dec_id
   | _ => None
   end.
 Definition fault_of (n : N) : option fault :=
   match n with
   | 0 => Some F_none | 1 => Some F_omit_fib | 2 => Some F_nonprimary | 3 => Some F_fail_idem_delete
   | 4 => Some F_stale_get | 5 => Some F_ignore_flush | 6 => Some F_misreport_elect | 7 => Some F_accept_repeated_params
+  | 8 => Some F_echo_own_elect | 9 => Some F_misreport_nonprimary | 10 => Some F_omit_fib_deletes
+  | 11 => Some F_stale_get_ipv4 | 12 => Some F_ignore_flush_named | 13 => Some F_tie_keeps_old_primary
   | _ => None
   end.
-Definition all_tests : list N := [1; 2; 3; 4; 5; 6; 7; 8; 9].
-Definition all_faults : list N := [0; 1; 2; 3; 4; 5; 6; 7].
+Definition all_tests : list N := [1; 2; 3; 4; 5; 6; 7; 8; 9; 10; 11; 12; 13; 14].
+Definition faulty : list N := [1; 2; 3; 4; 5; 6; 7; 8; 9; 10; 11; 12; 13].
+Definition all_faults : list N := 0 :: faulty.
 
 Definition all_test_records : list test :=
   [T_connect_elect; T_repeated_params; T_add_ipv4_rib; T_add_ipv4_fib; T_idempotent_delete; T_same_id_two_clients;
-   T_unannounced_id; T_get_nh; T_flush_master].
+   T_unannounced_id; T_get_nh; T_flush_master; T_idempotent_delete_fib; T_get_ipv4; T_flush_specific; T_lower_id; T_dec_id].
 (* the transcribed tests written for the requirement that each fault breaks *)
 Definition designated_of (f : N) : list N :=
   match f with
-  | 1 => [4] | 2 => [6; 7] | 3 => [5] | 4 => [8] | 5 => [9] | 6 => [1; 6] | 7 => [2]
+  | 1 => [4; 10] | 2 => [6; 7] | 3 => [5; 10] | 4 => [8; 11; 12] | 5 => [9; 12] | 6 => [1; 6; 13; 14] | 7 => [2]
+  | 8 => [13] | 9 => [13] | 10 => [10] | 11 => [11; 12] | 12 => [12] | 13 => [6]
   | _ => []
   end.
 
@@ -436,4 +568,4 @@ Definition catalogue_ok : bool :=
   forallb (fun t => match model_pass t 0 with Some true => true | _ => false end) all_tests
   && forallb (fun f => forallb (fun t => match model_pass t f with
                                          | Some b => Bool.eqb b (negb (memN t (designated_of f)))
-                                         | None => false end) all_tests) [1; 2; 3; 4; 5; 6; 7].
+                                         | None => false end) all_tests) faulty.
